@@ -1195,6 +1195,7 @@ nni_http_set_uri(nng_http *conn, const char *uri, const char *query)
 	if (conn->uri != NULL && conn->uri != conn->ubuf) {
 		nni_strfree(conn->uri);
 	}
+	conn->uri = NULL;
 
 	// fast path, small size URI fits in our buffer
 	if (needed < sizeof(conn->ubuf)) {
